@@ -452,13 +452,74 @@ func TestC10NestedSweep(t *testing.T) {
 	}
 }
 
+// tknKeyFields returns the structural 16-bit fields of a valid CP-ABE key encoding (tk.go):
+//
+//	PublicKey        3 x ( len16 | matrix{rows16 cols16 …} )
+//	SystemSecretKey  5 x ( len16 | matrix ) | len16 prfKey
+//	AttributeKey     len16 | attributes{ n16 | n x ( len16 label | 33 bytes ) } | len16 matrix | len16 matrix
+//	                 | n16 | n x ( len16 label | len16 matrix ) | n16 | n x ( len16 label | len16 matrix )
+func tknKeyFields(name string, v []byte) (fields []leField) {
+	defer func() { _ = recover() }()
+	o := 0
+	add := func(off int) int {
+		fields = append(fields, leField{off, 2})
+		return int(binary.LittleEndian.Uint16(v[off:]))
+	}
+	matrix := func() {
+		l := add(o)
+		if l >= 4 {
+			add(o + 2)
+			add(o + 4)
+		}
+		o += 2 + l
+	}
+	switch {
+	case strings.Contains(name, "PublicKey"):
+		for i := 0; i < 3; i++ {
+			matrix()
+		}
+	case strings.Contains(name, "SystemSecretKey"):
+		for i := 0; i < 5; i++ {
+			matrix()
+		}
+		add(o)
+	default:
+		l := add(o)
+		end := o + 2 + l
+		n := add(o + 2)
+		o += 4
+		for i := 0; i < n; i++ {
+			o += 2 + add(o) + 33
+		}
+		o = end
+		matrix()
+		matrix()
+		for k := 0; k < 2; k++ {
+			n := add(o)
+			o += 2
+			for i := 0; i < n; i++ {
+				o += 2 + add(o)
+				matrix()
+			}
+		}
+	}
+	var in []leField
+	for _, f := range fields {
+		if f.off+2 <= len(v) {
+			in = append(in, f)
+		}
+	}
+	return in
+}
+
 // TestC10KeyFieldSweep: deterministic enumeration over the length-like 16-bit
 // fields of the CP-ABE key encodings (lengths, counts, matrix rows/cols):
 // boundary values and the exchange with the following 16-bit value.
 func TestC10KeyFieldSweep(t *testing.T) {
 	defer vlib.Done()
 	names := []string{"tkn20.PublicKey.UnmarshalBinary", "tkn20.PublicKey.UnmarshalBinary+Encrypt", "tkn20.SystemSecretKey.UnmarshalBinary",
-		"tkn20.SystemSecretKey.UnmarshalBinary+KeyGen", "tkn20.AttributeKey.UnmarshalBinary", "tkn20.AttributeKey.UnmarshalBinary+Decrypt"}
+		"tkn20.SystemSecretKey.UnmarshalBinary+KeyGen", "tkn20.AttributeKey.UnmarshalBinary", "tkn20.AttributeKey.UnmarshalBinary+Decrypt",
+		"tkn20.PublicKey.UnmarshalBinary+Equal", "tkn20.SystemSecretKey.UnmarshalBinary+Equal", "tkn20.AttributeKey.UnmarshalBinary+Equal"}
 	d := &directTB{t: t}
 	for ni, name := range names {
 		if ni%vlib.NShards != vlib.Shard {
@@ -473,10 +534,7 @@ func TestC10KeyFieldSweep(t *testing.T) {
 			d.replay = map[string]interface{}{"entry": e.Name, "input": fmt.Sprintf("%x", in)}
 			probe(d, e, "key-field-sweep", in)
 		}
-		for _, f := range leCandidates(v) {
-			if f.w != 2 {
-				continue
-			}
+		for _, f := range tknKeyFields(name, v) {
 			old := leGet(v, f)
 			for _, nv := range []uint64{0, 1, old - 1, old + 1, old * 2, 0xffff} {
 				if nv&0xffff != old {
@@ -491,6 +549,57 @@ func TestC10KeyFieldSweep(t *testing.T) {
 				try(b)
 			}
 		}
+		if strings.Contains(name, "AttributeKey") {
+			// rename one occurrence of an attribute label (the key lists each label up to three
+			// times: attribute values, k3, k3wild): flip a bit at the start of every run of letters
+			isL := func(c byte) bool { return c >= 'A' && c <= 'Z' || c >= 'a' && c <= 'z' }
+			for i := 2; i+1 < len(v); i++ {
+				if isL(v[i]) && isL(v[i+1]) && !isL(v[i-1]) {
+					b := append([]byte{}, v...)
+					b[i] ^= 1
+					try(b)
+				}
+			}
+		}
+	}
+}
+
+// ---------------------------------------------------------------------------
+// hostile constants
+
+// corpus holds, per entry name, well-formed but hostile inputs (wrong PEM block
+// type, empty PEM block, unsupported OID, the RSA modulus as a "signature", …).
+// They are not valid encodings (c10core's self-test requires those to be
+// handled without a panic and would classify a panic as a harness fault), so
+// they are fed here: each as it is, and as a base for one generic mutation.
+var corpus = map[string][][]byte{}
+
+func addCorpus(name string, in ...[]byte) { corpus[name] = append(corpus[name], in...) }
+
+func TestC10Corpus(t *testing.T) {
+	defer vlib.Done()
+	d := &directTB{t: t}
+	for _, e := range sortedEntries() {
+		e := e
+		items := corpus[e.Name]
+		if len(items) == 0 {
+			continue
+		}
+		for _, in := range items {
+			d.replay = map[string]interface{}{"entry": e.Name, "input": fmt.Sprintf("%x", in)}
+			probe(d, &e, "corpus", in)
+		}
+		t.Run(e.Name, func(t *testing.T) {
+			vlib.Check(t, vlib.N(100, 1000)/max(1, e.Cost), func(t *rapid.T) {
+				base := items[rapid.IntRange(0, len(items)-1).Draw(t, "ci")]
+				m := vlib.Mutate(t, base, nil, "cm")
+				kind := m.Kind
+				if i := strings.IndexAny(kind, "@→+=/"); i > 0 {
+					kind = kind[:i]
+				}
+				probe(t, &e, "corpus-mut/"+kind, m.Out)
+			})
+		})
 	}
 }
 
